@@ -43,6 +43,46 @@ function spaces(tier, mk) {
   }));
 }
 
+// ---- canonical-state skeleton (DESIGN §4 C06/C10, §5): breadth-first over histories, each distinct
+// (visitor state dump after the last item, set of binding-introducing distractors) is *expanded* once.
+// Every successor of every representative is still *checked*; canonicalisation only decides expansion.
+const bindSet = (h) => h.filter((it) => it.d && H.D[it.d].once).map((it) => it.d).sort().join(',');
+async function skeleton(repDepth, optsJson) {
+  const { Driver } = require('./driver');
+  const drivers = Array.from({ length: Math.min(12, require('os').cpus().length) }, () => new Driver());
+  let frontier = [[]];
+  const seen = new Set();
+  const reps = [[]];
+  const perDepth = [];
+  let stateRequests = 0;
+  const t0 = Date.now();
+  for (let depth = 1; depth <= repDepth; depth++) {
+    const cands = [];
+    for (const rep of frontier) for (const it of ALL) { const h = rep.concat([it]); if (onceOk(h)) cands.push(h); }
+    const resps = await Promise.all(cands.map((h, i) => drivers[i % drivers.length].request({ src: H.renderHistory(h), want: ['state'], opts: optsJson })));
+    stateRequests += cands.length;
+    const next = [];
+    cands.forEach((h, i) => {
+      if (typeof resps[i].state !== 'string') return; // crashed / unparsable: checked by the plain spaces, not expanded
+      const k = resps[i].state + '|' + bindSet(h);
+      if (!seen.has(k)) { seen.add(k); next.push(h); }
+    });
+    perDepth.push({ depth, candidates: cands.length, new_states: next.length });
+    reps.push(...next);
+    frontier = next;
+  }
+  drivers.forEach((d) => d.close());
+  return { reps, info: { distinct_visitor_states: seen.size + 1, state_requests: stateRequests, per_depth: perDepth, representatives_expanded: reps.length, seconds: (Date.now() - t0) / 1000 } };
+}
+function canonicalSpace(prepared, mk) {
+  const reps = (prepared && prepared.reps) || [];
+  return {
+    name: 'HC:canonical-state-search',
+    bounds: { note: 'every representative history (one per distinct visitor state × binding set, found breadth-first) extended by every item of the full alphabet', representatives: reps.length, alphabet_size: ALL.length, max_length: reps.reduce((m, r) => Math.max(m, r.length), 0) + 1 },
+    *gen() { for (const rep of reps) if (rep.length >= 2) for (const it of ALL) { const h = rep.concat([it]); if (onceOk(h)) yield mk(h); } },
+  };
+}
+
 function* shrinkItems(items) {
   for (let i = 0; i < items.length; i++) yield items.slice(0, i).concat(items.slice(i + 1));
   // simplify an item: context → stmt, lowering → plain
@@ -56,4 +96,4 @@ function* shrinkItems(items) {
 
 const key = (items) => items.map(H.itemKey).join(' ; ') || '(empty)';
 
-module.exports = { ALL, FOCUS, CORE, MINI, spaces, shrinkItems, key, onceOk };
+module.exports = { ALL, FOCUS, CORE, MINI, spaces, shrinkItems, key, onceOk, skeleton, canonicalSpace };
